@@ -140,6 +140,31 @@ CHECKS = {
         note=COMMON_NOTE + "Every constructor call runs under a watchdog.",
         technique="Coq proof over translated address tables and activation constants + transport runs with environment/fd inspection",
         design="5/C16"),
+    "C18": dict(
+        text="Theorem: the bridge's per-request state machine (rewrite GetInfo, route by interface or by GetInterfaceDescription's argument, resolve only when the interface differs from the "
+             "previous request's) produces, for every request sequence and every resolver table, exactly what the service each request is routed to answers - the cache never goes stale. "
+             "PARTIAL: processes, epoll close-watching and exit status are the OS: the real `varlink bridge` is run in the four modes (resolver lookup, --connect, --activate, --bridge) against "
+             "two scripted services behind a scripted resolver, pipelined and one-at-a-time, plus upgraded sessions with payload; stdout is compared with direct sockets, exit status checked.",
+        note=COMMON_NOTE + "The possible loss of bytes that arrive together with a hang-up (WatchClose returns BrokenPipe before reading) is noted in DESIGN.md, not checked.",
+        technique="Coq proof (routing state machine = direct answers, invariant on the resolver cache) + runs of the real bridge process against direct sockets",
+        design="5/C18"),
+    "C19": dict(
+        text="Theorems over the certification model (parametric in the typedef environment, the steps' input fields and canonical parameters): a step's success is only given to a request in "
+             "the step's call mode, from a client expected at exactly that step, whose parameters equal the canonical ones under the typed comparison; wrong mode / step / client / parameters "
+             "never succeed; a call of one client leaves every other client's step untouched; the canonical call succeeds and advances. "
+             "PARTIAL: the step implementations are exercised, not translated: every step x single-leaf mutation x flag combination x wrong position x unknown client id against the real "
+             "server, 1..16 concurrent canonical clients; the model's comparison (on the IDL text of the repo) must agree with the server on every parameter mutant.",
+        note=COMMON_NOTE + "Known finding: Test09 ignores set element values.",
+        technique="Coq proof (success => canonical, per-client independence) + mutation matrix against the real certification server",
+        design="5/C19"),
+    "C20": dict(
+        text="Theorems: the URL argument is split at the last slash for every address (paths with many slashes, unix:@..., tcp:h:p) and goes to the resolver when it has none; for every reply "
+             "stream the printed values are the parameters of the successful replies in order (absent = {}), printing stops at the first error, and the exit status is 0 iff the stream is "
+             "continues* followed by a non-error final reply. PARTIAL: pretty-printing, colour, stderr text and the process exit are outside the model: the `varlink call` binary is run against a "
+             "scripted service (value shapes x call / --more / errors / early close x address forms x --color) and stdout is parsed as a JSON value stream.",
+        note=COMMON_NOTE,
+        technique="Coq proof (URL split; outcome function of the reply stream) + runs of the real `varlink call` process",
+        design="5/C20"),
 }
 
 ALL = ["C%02d" % i for i in range(1, 21)]
